@@ -16,7 +16,7 @@ type verifSnapshot struct {
 }
 
 func (s *verifSnapshot) Load(key uint32, loader func(value []byte) error) error { return nil }
-func (s *verifSnapshot) Close()                                                {}
+func (s *verifSnapshot) Close()                                                 {}
 
 func verifStore() *indexKVStore {
 	return &indexKVStore{
@@ -28,6 +28,9 @@ func verifStore() *indexKVStore {
 
 // C09 (concurrent get-or-create): two callers ask for the ID of a name (equal or different names of
 // one scope); every interleaving at the store's lock boundaries within the pre-emption bound.
+// thorough: the same threads under pre-emption bound 3 (time-boxed)
+func verifC09Concurrent3() { verifC09Concurrent() }
+
 func verifC09Concurrent() {
 	s := verifStore()
 	next := uint32(0)
@@ -135,6 +138,7 @@ func (f *verifKVFamily) NewFlusher() kv.Flusher {
 	return fl
 }
 func (fl *verifKVFlusher) StreamWriter() (table.StreamWriter, error) { return fl.w, nil }
+
 // verifCommitGate, when set, decides whether a commit still reaches the disk (crash points)
 var verifCommitGate func() bool
 
